@@ -59,7 +59,14 @@ def run(ctx, replay=None):
                 if r is None:
                     continue
                 for k, v in fields(r).items():
-                    if Z.is_err(v) and v["err"] in MEMORY_ERRORS:
+                    cv = fields(base).get(k) if base is not None else None
+                    same_in_compiled = Z.is_err(cv) and cv["err"] == v.get("err") if Z.is_err(v) else False
+                    # an exception raised identically by the compiled run comes from Python-level code (scipy / numpy
+                    # argument checks), not from an unchecked kernel access: that is C01's business, not C10's
+                    if Z.is_err(v) and v["err"] in MEMORY_ERRORS and not (m != "compiled" and same_in_compiled) \
+                            and not (m == "compiled" and all(Z.is_err(fields(recs[mm][i] or {}).get(k)) and
+                                                            fields(recs[mm][i] or {}).get(k)["err"] == v["err"]
+                                                            for mm in ("boundscheck", "interpreted") if recs[mm][i] is not None)):
                         ctx.report("%s/%d %s in %s mode raised %s: %s" % (name, seed, k, m, v["err"], v["msg"]),
                                    {"stage": "oracle", "mode": m, "case": [name, seed], "params": r.get("params"), "result": v})
             if base is None:
